@@ -29,9 +29,9 @@ use bytes::Bytes;
 use rustrtc::media::MediaStreamTrack;
 use rustrtc::media::frame::{AudioFrame, MediaKind as FrameKind, MediaSample, VideoFrame};
 use rustrtc::media::track::{SampleStreamSource, sample_track};
-use rustrtc::transports::sctp::{DataChannel, DataChannelEvent};
+use rustrtc::transports::sctp::{DataChannel, DataChannelConfig, DataChannelEvent};
 use rustrtc::{
-    BundlePolicy, IceServer, IceTcpPolicy, IceTransportPolicy, MediaKind, PeerConnection,
+    BundlePolicy, IceCandidate, IceConnectionState, IceServer, IceTcpPolicy, IceTransportPolicy, MediaKind, PeerConnection,
     PeerConnectionEvent, RtcConfiguration, RtcpMuxPolicy, RtpCodecParameters, SdpCompatibilityMode,
     SdpType, SessionDescription, TransportMode,
 };
@@ -598,24 +598,84 @@ async fn step<T, E: std::fmt::Display>(what: &str, d: Duration, f: impl std::fut
     }
 }
 
-async fn signal(off: &PeerConnection, ans: &PeerConnection, t: &Timeouts) -> Result<(SessionDescription, SessionDescription), String> {
-    // Same sequence as the repository's own loopback tests (tests/media_flow.rs,
-    // tests/sctp_e2e_loopback.rs): non-trickle, SDP carried as text between the two ends.
-    step("offerer.create_offer#1", t.signal, off.create_offer()).await?;
-    step::<(), String>("offerer.gathering", t.signal, async { off.wait_for_gathering_complete().await; Ok(()) }).await?;
+/// The SDP text without its candidate lines (what a trickling endpoint sends first).
+fn strip_candidates(sdp: &str) -> String {
+    let mut out = String::new();
+    for l in sdp.split_inclusive('\n') {
+        if l.starts_with("a=candidate:") || l.starts_with("a=end-of-candidates") {
+            continue;
+        }
+        out.push_str(l);
+    }
+    out
+}
+
+/// Deliver every local candidate of `from` (after its gathering completed) to `to`, each carried
+/// as its SDP text like a signalling channel would.
+async fn trickle(what: &str, from: &PeerConnection, to: &PeerConnection, t: &Timeouts) -> Result<usize, String> {
+    step::<(), String>(&format!("{what}.gathering"), t.signal, async { from.wait_for_gathering_complete().await; Ok(()) }).await?;
+    let mut n = 0;
+    for c in from.ice_transport().local_candidates() {
+        let txt = c.to_sdp();
+        let parsed = IceCandidate::from_sdp(&txt).map_err(|e| format!("{what}.candidate text does not parse back: {txt}: {e}"))?;
+        to.add_ice_candidate(parsed).map_err(|e| format!("peer-of-{what}.add_ice_candidate: {e}"))?;
+        n += 1;
+    }
+    if n == 0 {
+        return Err(format!("{what}.gathering: no local candidate after gathering completed"));
+    }
+    Ok(n)
+}
+
+type IceWatch = tokio::task::JoinHandle<Option<u64>>;
+
+/// One complete offer/answer exchange, SDP carried as text between the two ends.
+/// cand=sdp: same sequence as the repository's own loopback tests (tests/media_flow.rs,
+/// tests/sctp_e2e_loopback.rs): non-trickle, both descriptions created after gathering.
+/// cand=trickle: both descriptions are created without waiting for gathering, travel without
+/// candidate lines, and every candidate is delivered through add_ice_candidate once the receiving
+/// end has the sender's description (first the answerer's to the offerer, then the offerer's).
+async fn signal(p: &Point, off: &PeerConnection, ans: &PeerConnection, t: &Timeouts, srd_us: &mut u64) -> Result<(SessionDescription, SessionDescription, IceWatch), String> {
+    let trickling = p.cand == "trickle";
+    let carry = |sdp: String| if trickling { strip_candidates(&sdp) } else { sdp };
+    if !trickling {
+        step("offerer.create_offer#1", t.signal, off.create_offer()).await?;
+        step::<(), String>("offerer.gathering", t.signal, async { off.wait_for_gathering_complete().await; Ok(()) }).await?;
+    }
     let offer = step("offerer.create_offer", t.signal, off.create_offer()).await?;
-    let offer_txt = offer.to_sdp_string();
+    let offer_txt = carry(offer.to_sdp_string());
     off.set_local_description(offer.clone()).map_err(|e| format!("offerer.set_local_description: {e}"))?;
     let offer_rx = SessionDescription::parse(SdpType::Offer, &offer_txt).map_err(|e| format!("parse(offer text): {e}"))?;
     step("answerer.set_remote_description", t.signal, ans.set_remote_description(offer_rx)).await?;
-    step("answerer.create_answer#1", t.signal, ans.create_answer()).await?;
-    step::<(), String>("answerer.gathering", t.signal, async { ans.wait_for_gathering_complete().await; Ok(()) }).await?;
+    if !trickling {
+        step("answerer.create_answer#1", t.signal, ans.create_answer()).await?;
+        step::<(), String>("answerer.gathering", t.signal, async { ans.wait_for_gathering_complete().await; Ok(()) }).await?;
+    }
     let answer = step("answerer.create_answer", t.signal, ans.create_answer()).await?;
-    let answer_txt = answer.to_sdp_string();
+    let answer_txt = carry(answer.to_sdp_string());
     ans.set_local_description(answer.clone()).map_err(|e| format!("answerer.set_local_description: {e}"))?;
     let answer_rx = SessionDescription::parse(SdpType::Answer, &answer_txt).map_err(|e| format!("parse(answer text): {e}"))?;
+    let t0 = Instant::now();
+    let watch: IceWatch = {
+        let mut rx = off.subscribe_ice_connection_state();
+        tokio::spawn(async move {
+            loop {
+                if matches!(*rx.borrow_and_update(), IceConnectionState::Connected | IceConnectionState::Completed) {
+                    return Some(t0.elapsed().as_micros() as u64);
+                }
+                if rx.changed().await.is_err() {
+                    return None;
+                }
+            }
+        })
+    };
     step("offerer.set_remote_description", t.signal, off.set_remote_description(answer_rx)).await?;
-    Ok((offer, answer))
+    *srd_us = t0.elapsed().as_micros() as u64;
+    if trickling {
+        trickle("answerer", ans, off, t).await?;
+        trickle("offerer", off, ans, t).await?;
+    }
+    Ok((offer, answer, watch))
 }
 
 fn slug(s: &str) -> String {
@@ -861,8 +921,8 @@ async fn run_point_async(p: Point, t: Timeouts) -> Outcome {
         None
     };
     let mux_port = match p.ice {
-        "udpmux-ans" => free_udp_port(),
-        "tcp-only" => free_tcp_port(),
+        "udpmux-ans" => free_udp_port(loopback(&p)),
+        "tcp-only" | "tcp-only/off-listens" | "tcpmux-ans" => free_tcp_port(loopback(&p)),
         _ => 0,
     };
     let a_offers = p.offerer == "A";
@@ -890,38 +950,63 @@ async fn run_point_async(p: Point, t: Timeouts) -> Outcome {
     out
 }
 
-async fn drive(p: &Point, t: &Timeouts, a: &mut Endpoint, b: &mut Endpoint, out: &mut Outcome) -> Result<(), (String, String, String)> {
+type Fail = (String, String, String);
+
+fn section_checks(p: &Point, offer: &SessionDescription, answer: &SessionDescription, phase: &str) -> Result<Option<String>, Fail> {
+    if offer.media_sections.len() != answer.media_sections.len() {
+        return Err((phase.into(), "section-count".into(), format!("answer has {} media sections, offer {}", answer.media_sections.len(), offer.media_sections.len())));
+    }
+    if let Some(s) = answer.media_sections.iter().find(|s| s.port == 0) {
+        return Err((phase.into(), "section-rejected".into(), format!("answer rejects the {:?} section (port 0) although both ends are configured for it", s.kind)));
+    }
+    let mut roles = None;
+    if p.mode == "WebRtc" {
+        roles = Some(check_setup(offer, answer).map_err(|e| (phase.to_string(), "setup-roles".to_string(), e))?);
+    }
+    if p.mode == "Srtp" {
+        for (n, d) in [("offer", offer), ("answer", answer)] {
+            if let Some(s) = d.media_sections.iter().find(|s| attr(s, "crypto").is_none()) {
+                return Err((phase.into(), "no-crypto".into(), format!("{n} {:?} section has no a=crypto in Srtp mode", s.kind)));
+            }
+        }
+    }
+    Ok(roles)
+}
+
+async fn drive(p: &Point, t: &Timeouts, a: &mut Endpoint, b: &mut Endpoint, out: &mut Outcome) -> Result<(), Fail> {
     let a_offers = p.offerer == "A";
-    // the offerer creates the (in-band, DCEP) channel before the offer; the answerer receives it
-    let dc_off = if p.has_dc() {
-        let e = if a_offers { &*a } else { &*b };
-        Some(e.pc.create_data_channel("c10", None).map_err(|e| ("setup".to_string(), "api-error".to_string(), format!("create_data_channel: {e}")))?)
-    } else {
-        None
-    };
-    let (offer, answer) = {
+    let api = |e: String| ("setup".to_string(), "api-error".to_string(), e);
+    // channels that exist before the first offer:
+    //   inband / inband2 : the offerer creates one / two in-band (DCEP) channels, the answerer is told by a DataChannel event
+    //   negotiated       : both ends create the channel themselves with the agreed id 0 (no DCEP)
+    //   late             : none yet — the offerer creates its channel after media is connected (below)
+    let mut off_chans: Vec<Arc<DataChannel>> = vec![];
+    let mut ans_chans: Vec<Arc<DataChannel>> = vec![];
+    {
+        let (eo, ea) = if a_offers { (&*a, &*b) } else { (&*b, &*a) };
+        match p.dcs {
+            "inband" => off_chans.push(eo.pc.create_data_channel("c10", None).map_err(|e| api(format!("create_data_channel: {e}")))?),
+            "inband2" => {
+                off_chans.push(eo.pc.create_data_channel("c10", None).map_err(|e| api(format!("create_data_channel: {e}")))?);
+                off_chans.push(eo.pc.create_data_channel("c10-2", None).map_err(|e| api(format!("create_data_channel#2: {e}")))?);
+            }
+            "negotiated" => {
+                let cfg = || Some(DataChannelConfig { negotiated: Some(0), ..Default::default() });
+                off_chans.push(eo.pc.create_data_channel("c10", cfg()).map_err(|e| api(format!("offerer.create_data_channel(negotiated 0): {e}")))?);
+                ans_chans.push(ea.pc.create_data_channel("c10", cfg()).map_err(|e| api(format!("answerer.create_data_channel(negotiated 0): {e}")))?);
+            }
+            _ => {}
+        }
+    }
+    let (offer, answer, ice_watch) = {
         let (off, ans) = if a_offers { (&a.pc, &b.pc) } else { (&b.pc, &a.pc) };
-        signal(off, ans, t).await.map_err(|e| ("offer-answer".to_string(), step_cause(&e), e))?
+        signal(p, off, ans, t, &mut out.srd_answer_us).await.map_err(|e| ("offer-answer".to_string(), step_cause(&e), e))?
     };
     out.offer = offer.to_sdp_string();
     out.answer = answer.to_sdp_string();
     out.shape = format!("offer[{}] answer[{}]", desc_shape(&offer), desc_shape(&answer));
-    if offer.media_sections.len() != answer.media_sections.len() {
-        return Err(("offer-answer".into(), "section-count".into(), format!("answer has {} media sections, offer {}", answer.media_sections.len(), offer.media_sections.len())));
-    }
-    if let Some(s) = answer.media_sections.iter().find(|s| s.port == 0) {
-        return Err(("offer-answer".into(), "section-rejected".into(), format!("answer rejects the {:?} section (port 0) although both ends are configured for it", s.kind)));
-    }
-    if p.mode == "WebRtc" {
-        let roles = check_setup(&offer, &answer).map_err(|e| ("offer-answer".to_string(), "setup-roles".to_string(), e))?;
+    if let Some(roles) = section_checks(p, &offer, &answer, "offer-answer")? {
         out.shape.push_str(&format!(" setup={roles}"));
-    }
-    if p.mode == "Srtp" {
-        for (n, d) in [("offer", &offer), ("answer", &answer)] {
-            if let Some(s) = d.media_sections.iter().find(|s| attr(s, "crypto").is_none()) {
-                return Err(("offer-answer".into(), "no-crypto".into(), format!("{n} {:?} section has no a=crypto in Srtp mode", s.kind)));
-            }
-        }
     }
     // connect
     let both = async { tokio::try_join!(a.pc.wait_for_connected(), b.pc.wait_for_connected()) };
@@ -933,24 +1018,82 @@ async fn drive(p: &Point, t: &Timeouts, a: &mut Endpoint, b: &mut Endpoint, out:
     if p.mode == "WebRtc" {
         let sel = |e: &Endpoint| e.pc.ice_transport().get_selected_pair().map(|pr| format!("{}-{:?}", pr.local.transport, pr.local.typ)).unwrap_or_else(|| "none".into());
         out.shape.push_str(&format!(" pair={}|{}", sel(a), sel(b)));
+        if let Ok(Ok(Some(us))) = timeout(Duration::from_millis(200), ice_watch).await {
+            out.ice_connected_after_us = us;
+        }
+    } else {
+        ice_watch.abort();
     }
-    // data channel
-    if let Some(dc_off) = dc_off {
-        let (eo, ea) = if a_offers { (&mut *a, &mut *b) } else { (&mut *b, &mut *a) };
-        let (o2a, a2o) = if a_offers { ("a->b", "b->a") } else { ("b->a", "a->b") };
-        wait_dc_open(&dc_off, t.dc).await.map_err(|e| ("datachannel open".to_string(), "no-open-offerer".to_string(), format!("offerer's channel: {e}; {} | {}", diag(eo), diag(ea))))?;
-        let dc_ans = match timeout(t.dc, ea.dc_rx.recv()).await {
-            Ok(Some(d)) => d,
-            _ => return Err(("datachannel open".into(), "no-event-answerer".into(), format!("answerer got no DataChannel event within {:?}; {} | {}", t.dc, diag(eo), diag(ea)))),
+    // dcs=late: media is negotiated and connected; now the offerer creates its first channel and a
+    // second complete offer/answer exchange adds the application section
+    if p.dcs == "late" {
+        let ph = "renegotiation";
+        {
+            let eo = if a_offers { &*a } else { &*b };
+            off_chans.push(eo.pc.create_data_channel("c10", None).map_err(|e| (ph.to_string(), "api-error".to_string(), format!("create_data_channel after connect: {e}")))?);
+        }
+        let (offer2, answer2) = {
+            let (off, ans) = if a_offers { (&a.pc, &b.pc) } else { (&b.pc, &a.pc) };
+            let mut us = 0;
+            let (o, n, w) = signal(p, off, ans, t, &mut us).await.map_err(|e| (ph.to_string(), step_cause(&e), e))?;
+            w.abort();
+            (o, n)
         };
-        wait_dc_open(&dc_ans, t.dc).await.map_err(|e| ("datachannel open".to_string(), "no-open-answerer".to_string(), format!("answerer's channel: {e}")))?;
-        let m1 = payload(&format!("dc {o2a}"), 1);
-        eo.pc.send_data(dc_off.id, &m1).await.map_err(|e| (format!("datachannel {o2a}"), "send-error".to_string(), format!("send_data: {e}")))?;
-        dc_expect(&dc_ans, &m1, t.dc).await.map_err(|e| (format!("datachannel {o2a}"), dc_cause(&e), e))?;
-        let m2 = payload(&format!("dc {a2o}"), 2);
-        ea.pc.send_data(dc_ans.id, &m2).await.map_err(|e| (format!("datachannel {a2o}"), "send-error".to_string(), format!("send_data: {e}")))?;
-        dc_expect(&dc_off, &m2, t.dc).await.map_err(|e| (format!("datachannel {a2o}"), dc_cause(&e), e))?;
-        out.transfers += 2;
+        out.offer = offer2.to_sdp_string();
+        out.answer = answer2.to_sdp_string();
+        out.shape.push_str(&format!(" reneg: offer[{}] answer[{}]", desc_shape(&offer2), desc_shape(&answer2)));
+        for (n, d) in [("offer", &offer2), ("answer", &answer2)] {
+            if !d.media_sections.iter().any(|s| s.kind == MediaKind::Application) {
+                return Err((ph.into(), "no-application-section".into(), format!("second {n} has no application section although the offerer created a data channel")));
+            }
+        }
+        section_checks(p, &offer2, &answer2, ph)?;
+        let both = async { tokio::try_join!(a.pc.wait_for_connected(), b.pc.wait_for_connected()) };
+        match timeout(t.connect, both).await {
+            Ok(Ok(_)) => {}
+            Ok(Err(e)) => return Err((ph.into(), connect_cause(a, b), format!("after the second exchange: {e}; {} | {}", diag(a), diag(b)))),
+            Err(_) => return Err((ph.into(), connect_cause(a, b), format!("not both Connected within {:?} after the second exchange; {} | {}", t.connect, diag(a), diag(b)))),
+        }
+    }
+    // data channels: every channel opens on both ends
+    let (o2a, a2o) = if a_offers { ("a->b", "b->a") } else { ("b->a", "a->b") };
+    let mut pairs: Vec<(Arc<DataChannel>, Arc<DataChannel>)> = vec![];
+    if !off_chans.is_empty() {
+        let (eo, ea) = if a_offers { (&mut *a, &mut *b) } else { (&mut *b, &mut *a) };
+        for dc_off in &off_chans {
+            wait_dc_open(dc_off, t.dc).await.map_err(|e| ("datachannel open".to_string(), "no-open-offerer".to_string(), format!("offerer's channel '{}': {e}; sctp={:?}; {} | {}", dc_off.label, eo.pc.sctp_diagnostic_info().map(|s| vh::truncate(&s, 80)), diag(eo), diag(ea))))?;
+        }
+        if p.dcs != "negotiated" {
+            for _ in 0..off_chans.len() {
+                match timeout(t.dc, ea.dc_rx.recv()).await {
+                    Ok(Some(d)) => ans_chans.push(d),
+                    _ => return Err(("datachannel open".into(), "no-event-answerer".into(), format!("answerer got {} of {} DataChannel events within {:?}; {} | {}", ans_chans.len(), off_chans.len(), t.dc, diag(eo), diag(ea)))),
+                }
+            }
+        }
+        for dc_off in &off_chans {
+            let Some(dc_ans) = ans_chans.iter().find(|d| d.label == dc_off.label && d.id == dc_off.id).cloned() else {
+                return Err(("datachannel open".into(), "channel-identity".into(), format!("answerer has no channel with label '{}' and id {} (has: {:?})", dc_off.label, dc_off.id, ans_chans.iter().map(|d| format!("{}#{}", d.label, d.id)).collect::<Vec<_>>())));
+            };
+            wait_dc_open(&dc_ans, t.dc).await.map_err(|e| ("datachannel open".to_string(), "no-open-answerer".to_string(), format!("answerer's channel '{}': {e}", dc_ans.label)))?;
+            pairs.push((dc_off.clone(), dc_ans));
+        }
+    }
+    if p.traffic == "burst" {
+        return burst(p, t, a, b, &pairs, out).await;
+    }
+    // traffic=one: one message each way on every channel, one after another
+    {
+        let (eo, ea) = if a_offers { (&*a, &*b) } else { (&*b, &*a) };
+        for (k, (dc_off, dc_ans)) in pairs.iter().enumerate() {
+            let m1 = payload(&format!("dc{k} {o2a}"), 1);
+            eo.pc.send_data(dc_off.id, &m1).await.map_err(|e| (format!("datachannel {o2a}"), "send-error".to_string(), format!("send_data: {e}")))?;
+            dc_expect(dc_ans, &m1, t.dc).await.map_err(|e| (format!("datachannel {o2a}"), dc_cause(&e), e))?;
+            let m2 = payload(&format!("dc{k} {a2o}"), 2);
+            ea.pc.send_data(dc_ans.id, &m2).await.map_err(|e| (format!("datachannel {a2o}"), "send-error".to_string(), format!("send_data: {e}")))?;
+            dc_expect(dc_off, &m2, t.dc).await.map_err(|e| (format!("datachannel {a2o}"), dc_cause(&e), e))?;
+            out.transfers += 2;
+        }
     }
     // media: all streams at once (bidirectional, all sections), judged in a fixed order
     let mut streams = vec![];
@@ -995,15 +1138,206 @@ async fn drive(p: &Point, t: &Timeouts, a: &mut Endpoint, b: &mut Endpoint, out:
     Ok(())
 }
 
+// ---------------------------------------------------------------------------------------------
+// traffic = burst: every flow of the point sends a numbered burst at the same time
+// ---------------------------------------------------------------------------------------------
+
+const DC_ITEM_LEN: usize = 600;
+const RTP_ITEM_LEN: usize = 400;
+
+fn burst_sizes() -> (u32, u32) {
+    let n = |k: &str, d: u32| std::env::var(k).ok().and_then(|s| s.parse().ok()).unwrap_or(d);
+    (n("C10_BURST_DC", 200), n("C10_BURST_RTP", 200))
+}
+
+/// Index carried in an item made by `payload_sized(tag, idx, _)`.
+fn item_index(tag: &str, b: &[u8]) -> Option<u32> {
+    let pre = format!("C10|{tag}|");
+    let rest = b.strip_prefix(pre.as_bytes())?;
+    let end = rest.iter().position(|c| *c == b'|')?;
+    std::str::from_utf8(&rest[..end]).ok()?.parse().ok()
+}
+
+/// (kind of failure, text). Kinds: stalled | corrupt | misordered | closed | send-error | task
+type FlowErr = (&'static str, String);
+
+async fn dc_burst_send(pc: PeerConnection, id: u16, tag: String, n: u32, mut go: tokio::sync::watch::Receiver<bool>) -> Result<u64, FlowErr> {
+    let _ = go.wait_for(|g| *g).await;
+    for i in 0..n {
+        pc.send_data(id, &payload_sized(&tag, i, DC_ITEM_LEN)).await.map_err(|e| ("send-error", format!("send_data #{i}: {e}")))?;
+    }
+    Ok(n as u64)
+}
+
+/// Data channel (ordered, reliable — the default): item i must be the i-th message delivered.
+async fn dc_burst_recv(dc: Arc<DataChannel>, tag: String, n: u32, d: Duration, mut go: tokio::sync::watch::Receiver<bool>) -> Result<u64, FlowErr> {
+    let _ = go.wait_for(|g| *g).await;
+    let deadline = tokio::time::Instant::now() + d;
+    for i in 0..n {
+        loop {
+            match tokio::time::timeout_at(deadline, dc.recv()).await {
+                Ok(Some(DataChannelEvent::Message(b))) => {
+                    if b.as_ref() == payload_sized(&tag, i, DC_ITEM_LEN).as_slice() {
+                        break;
+                    }
+                    return Err(match item_index(&tag, &b) {
+                        Some(j) if b.as_ref() == payload_sized(&tag, j, DC_ITEM_LEN).as_slice() => ("misordered", format!("message #{j} delivered where #{i} was due")),
+                        _ => ("corrupt", format!("delivery #{i} is not a message that was sent on this channel: {} bytes {}", b.len(), vh::truncate(&String::from_utf8_lossy(&b[..b.len().min(24)]), 40))),
+                    });
+                }
+                Ok(Some(DataChannelEvent::Open)) => continue,
+                Ok(Some(DataChannelEvent::Close)) | Ok(None) => return Err(("closed", format!("channel closed after {i} of {n} messages"))),
+                Err(_) => return Err(("stalled", format!("{i} of {n} messages delivered within {:?}", d))),
+            }
+        }
+    }
+    Ok(n as u64)
+}
+
+/// RTP sender of one flow: items 0..n one per millisecond (the burst), then items n.. one per
+/// 10 ms (the tail) until the receiving side has seen a tail item.
+async fn rtp_burst_send(kind: &'static str, src: Arc<SampleStreamSource>, tag: String, n: u32, done: Arc<AtomicBool>, pushed: Arc<AtomicUsize>, mut go: tokio::sync::watch::Receiver<bool>) -> Result<u64, FlowErr> {
+    let _ = go.wait_for(|g| *g).await;
+    let mut i = 0u32;
+    while !done.load(Ordering::SeqCst) && i < 9000 {
+        let data = Bytes::from(payload_sized(&tag, i, RTP_ITEM_LEN));
+        let s = if kind == "audio" {
+            MediaSample::Audio(AudioFrame { rtp_timestamp: 960u32.wrapping_mul(i), clock_rate: 48000, data, ..Default::default() })
+        } else {
+            MediaSample::Video(VideoFrame { rtp_timestamp: 3000u32.wrapping_mul(i), data, is_last_packet: true, ..Default::default() })
+        };
+        src.send(s).map_err(|e| ("send-error", format!("source.send #{i}: {e}")))?;
+        i += 1;
+        pushed.store(i as usize, Ordering::SeqCst);
+        tokio::time::sleep(Duration::from_millis(if i <= n { 1 } else { 10 })).await;
+    }
+    Ok(i as u64)
+}
+
+/// RTP receiver of one flow. Rule (RTP is unreliable and unordered, the property promises that a
+/// packet sent arrives intact): every delivered sample must be byte-equal to an item pushed on
+/// exactly this flow, and an item pushed *after* the burst (index >= n) must be delivered before
+/// the deadline. Returns the number of delivered (all verified) samples.
+async fn rtp_burst_recv(kind: &'static str, rx_pc: PeerConnection, tag: String, n: u32, d: Duration, done: Arc<AtomicBool>, pushed: Arc<AtomicUsize>) -> Result<u64, FlowErr> {
+    let want_kind = if kind == "audio" { MediaKind::Audio } else { MediaKind::Video };
+    let tracks: Vec<_> = rx_pc.get_transceivers().into_iter().filter(|t| t.kind() == want_kind).filter_map(|t| t.receiver()).map(|r| r.track()).collect();
+    if tracks.is_empty() {
+        done.store(true, Ordering::SeqCst);
+        return Err(("corrupt", format!("receiving end has no {kind} receiver track")));
+    }
+    let (tx, mut rx) = tokio::sync::mpsc::unbounded_channel::<Result<Bytes, String>>();
+    let mut readers = vec![];
+    for t in tracks {
+        let tx = tx.clone();
+        readers.push(tokio::spawn(async move {
+            loop {
+                match t.recv().await {
+                    Ok(MediaSample::Audio(f)) => {
+                        let _ = tx.send(if kind == "audio" { Ok(f.data) } else { Err("audio sample on a video track".into()) });
+                    }
+                    Ok(MediaSample::Video(f)) => {
+                        let _ = tx.send(if kind == "video" { Ok(f.data) } else { Err("video sample on an audio track".into()) });
+                    }
+                    Err(e) => {
+                        let _ = tx.send(Err(format!("track.recv: {e}")));
+                        break;
+                    }
+                }
+            }
+        }));
+    }
+    drop(tx);
+    let deadline = tokio::time::Instant::now() + d;
+    let mut got = 0u64;
+    let res = loop {
+        match tokio::time::timeout_at(deadline, rx.recv()).await {
+            Ok(Some(Ok(b))) => match item_index(&tag, &b) {
+                Some(j) if b.as_ref() == payload_sized(&tag, j, RTP_ITEM_LEN).as_slice() => {
+                    got += 1;
+                    if j >= n {
+                        break Ok(got);
+                    }
+                }
+                _ => break Err(("corrupt", format!("delivered payload is not one that was pushed on this flow: {} bytes {}", b.len(), vh::truncate(&String::from_utf8_lossy(&b[..b.len().min(24)]), 40)))),
+            },
+            Ok(Some(Err(e))) => break Err(("corrupt", e)),
+            Ok(None) => break Err(("closed", "all receiver tracks ended".into())),
+            Err(_) => break Err(("stalled", format!("no item pushed after the burst was delivered within {:?} ({} delivered, {} pushed, burst {})", d, got, pushed.load(Ordering::SeqCst), n))),
+        }
+    };
+    done.store(true, Ordering::SeqCst);
+    for r in readers {
+        r.abort();
+    }
+    res
+}
+
+async fn burst(p: &Point, t: &Timeouts, a: &Endpoint, b: &Endpoint, pairs: &[(Arc<DataChannel>, Arc<DataChannel>)], out: &mut Outcome) -> Result<(), Fail> {
+    let (n_dc, n_rtp) = burst_sizes();
+    let a_offers = p.offerer == "A";
+    let (eo, ea) = if a_offers { (a, b) } else { (b, a) };
+    let (o2a, a2o) = if a_offers { ("a->b", "b->a") } else { ("b->a", "a->b") };
+    let (go_tx, go) = tokio::sync::watch::channel(false);
+    // (flow name, class, task)
+    let mut tasks: Vec<(String, &'static str, tokio::task::JoinHandle<Result<u64, FlowErr>>)> = vec![];
+    for (k, (dc_off, dc_ans)) in pairs.iter().enumerate() {
+        for (dir, tx_pc, tx_id, rx_dc) in [(o2a, &eo.pc, dc_off.id, dc_ans.clone()), (a2o, &ea.pc, dc_ans.id, dc_off.clone())] {
+            let tag = format!("dc{k} {dir}");
+            tasks.push((format!("{tag} recv"), "dc", tokio::spawn(dc_burst_recv(rx_dc, tag.clone(), n_dc, t.burst, go.clone()))));
+            tasks.push((format!("{tag} send"), "dc", tokio::spawn(dc_burst_send(tx_pc.clone(), tx_id, tag, n_dc, go.clone()))));
+        }
+    }
+    for (dir, tx, rx) in [("a->b", a, b), ("b->a", b, a)] {
+        for (k, src) in &tx.sources {
+            let tag = format!("{dir} {k}");
+            let done = Arc::new(AtomicBool::new(false));
+            let pushed = Arc::new(AtomicUsize::new(0));
+            tasks.push((format!("{tag} recv"), "rtp", tokio::spawn(rtp_burst_recv(k, rx.pc.clone(), tag.clone(), n_rtp, t.burst, done.clone(), pushed.clone()))));
+            tasks.push((format!("{tag} send"), "rtp", tokio::spawn(rtp_burst_send(k, src.clone(), tag, n_rtp, done, pushed, go.clone()))));
+        }
+    }
+    out.burst_flows = (tasks.len() / 2) as u32;
+    let _ = go_tx.send(true);
+    let mut kinds: BTreeSet<&'static str> = BTreeSet::new();
+    let mut classes: BTreeSet<&'static str> = BTreeSet::new();
+    let mut all = vec![];
+    for (name, class, h) in tasks {
+        let r = match timeout(t.burst + Duration::from_secs(2), h).await {
+            Ok(Ok(r)) => r,
+            Ok(Err(e)) => Err(("task", format!("flow task: {e}"))),
+            Err(_) => Err(("stalled", "flow task did not finish".into())),
+        };
+        match r {
+            Ok(n) => {
+                if name.ends_with("recv") {
+                    out.burst_items += n;
+                    out.transfers += 1;
+                }
+            }
+            Err((kind, e)) => {
+                kinds.insert(kind);
+                classes.insert(class);
+                all.push(format!("{name}: {e}"));
+            }
+        }
+    }
+    if !kinds.is_empty() {
+        let cause = format!("{}:{}", kinds.into_iter().collect::<Vec<_>>().join("+"), classes.into_iter().collect::<Vec<_>>().join("+"));
+        return Err(("burst".into(), cause, format!("{}; {} | {}", all.join("; "), diag(a), diag(b))));
+    }
+    Ok(())
+}
+
 fn run_point(p: &Point, t: &Timeouts) -> Outcome {
-    let rt = match tokio::runtime::Builder::new_multi_thread().worker_threads(2).enable_all().build() {
+    // real threads: 2 workers for the one-each pattern, 4 for the concurrent pattern
+    let rt = match tokio::runtime::Builder::new_multi_thread().worker_threads(if p.traffic == "burst" { 4 } else { 2 }).enable_all().build() {
         Ok(r) => r,
         Err(e) => {
             return Outcome { fail_phase: Some("machinery".into()), detail: format!("runtime: {e}"), ..Default::default() };
         }
     };
     let (pp, tt) = (p.clone(), t.clone());
-    let hard = t.signal * 8 + t.connect + t.dc * 5 + t.rtp + Duration::from_secs(5);
+    let hard = t.signal * 16 + t.connect * 2 + t.dc * 9 + t.rtp + t.burst + Duration::from_secs(8);
     let r = vh::catch(std::panic::AssertUnwindSafe(|| {
         rt.block_on(async move {
             match timeout(hard, tokio::spawn(run_point_async(pp, tt))).await {
@@ -1051,7 +1385,7 @@ fn signature(p: &Point, phase: &str, cause: &str) -> String {
 /// For triage: the dimension values shared by all failing points of one group.
 fn common_factors(ps: &[&Point]) -> String {
     let mut out = vec![];
-    let cols: [(&str, fn(&Point) -> &'static str); 7] = [
+    let cols: [(&str, fn(&Point) -> &'static str); 11] = [
         ("media", |p| p.media),
         ("bundle", |p| p.bundle),
         ("mux", |p| p.mux),
@@ -1059,6 +1393,10 @@ fn common_factors(ps: &[&Point]) -> String {
         ("latch", |p| p.latch),
         ("compat", |p| p.compat),
         ("offerer", |p| p.offerer),
+        ("cand", |p| p.cand),
+        ("ip", |p| p.ip),
+        ("dcs", |p| p.dcs),
+        ("traffic", |p| p.traffic),
     ];
     for (n, f) in cols {
         let vals: BTreeSet<&str> = ps.iter().map(|p| f(p)).collect();
@@ -1074,6 +1412,7 @@ fn timeouts(tier: Tier) -> Timeouts {
         connect: ms("C10_CONNECT_MS", tier.pick(10_000, 15_000)),
         dc: ms("C10_DC_MS", 5_000),
         rtp: ms("C10_RTP_MS", tier.pick(3_000, 4_000)),
+        burst: ms("C10_BURST_MS", tier.pick(6_000, 8_000)),
     }
 }
 
@@ -1109,15 +1448,45 @@ fn main() {
     let mut rep = vh::Report::new("C10", &cli, "exploration");
     let t = timeouts(cli.tier);
     let pool: usize = std::env::var("C10_POOL").ok().and_then(|s| s.parse().ok()).unwrap_or(8);
-    let mut points = lattice(cli.tier);
+    let t_lat = Instant::now();
+    // debugging aids only, never used by ./check (a filtered run is not called exhaustive):
+    // C10_SPACE=full filters the full product whatever the tier; C10_FILTER=dim=value,...;
+    // C10_REPEAT=n runs every selected point n times alone and prints the failure rate per phase.
+    let lat = lattice(if std::env::var("C10_SPACE").as_deref() == Ok("full") { Tier::Thorough } else { cli.tier });
+    let lattice_s = t_lat.elapsed().as_secs_f64();
+    let mut points = lat.points.clone();
     if let Ok(f) = std::env::var("C10_FILTER") {
-        // debugging aid only: never used by ./check; a filtered run is not called exhaustive
         points.retain(|p| f.split(',').all(|kv| p.dims().split(';').any(|d| d == kv)));
     }
     let filtered = std::env::var("C10_FILTER").is_ok();
     let n = points.len();
     if n == 0 {
         vh::machinery_failure("empty lattice");
+    }
+    if let Some(reps) = std::env::var("C10_REPEAT").ok().and_then(|s| s.parse::<usize>().ok()) {
+        for p in &points {
+            let mut phases: BTreeMap<String, usize> = BTreeMap::new();
+            let mut first = String::new();
+            let (mut srd, mut ice) = (vec![], vec![]);
+            for _ in 0..reps {
+                let o = run_point(p, &t);
+                if let Some(ph) = &o.fail_phase {
+                    if first.is_empty() {
+                        first = format!("{}: {}", o.cause, vh::truncate(&o.detail, 400));
+                    }
+                    *phases.entry(format!("{ph}/{}", o.cause)).or_default() += 1;
+                }
+                if o.ice_connected_after_us > 0 {
+                    srd.push(o.srd_answer_us);
+                    ice.push(o.ice_connected_after_us);
+                }
+            }
+            let bad: usize = phases.values().sum();
+            srd.sort();
+            ice.sort();
+            println!("REPEAT {} fail={}/{} phases={:?} srd_answer_us[min,med]={:?} ice_connected_after_us[min,med]={:?} {}", p.dims(), bad, reps, phases, (srd.first(), srd.get(srd.len() / 2)), (ice.first(), ice.get(ice.len() / 2)), first);
+        }
+        return;
     }
     let t_par = Instant::now();
     let outcomes = run_parallel(&points, &t, pool);
@@ -1219,8 +1588,46 @@ fn main() {
             *shapes.entry(key).or_default() += 1;
         }
     }
+    // per dimension value: [points, points held]
+    let mut by_value: BTreeMap<String, (u64, u64)> = BTreeMap::new();
+    let names = ["media", "bundle", "mux", "ice", "latch", "compat", "offerer", "cand", "ip", "dcs", "traffic"];
+    let (mut burst_points, mut burst_held, mut burst_items, mut burst_flows) = (0u64, 0u64, 0u64, 0u64);
+    let (mut srd, mut icec) = (vec![], vec![]);
+    for (i, o) in outcomes.iter().enumerate() {
+        let ok = !confirmed_idx.contains(&i);
+        for (d, v) in coords(&points[i]).iter().enumerate() {
+            let e = by_value.entry(format!("{}={}", names[d], v)).or_default();
+            e.0 += 1;
+            e.1 += ok as u64;
+        }
+        if points[i].traffic == "burst" {
+            burst_points += 1;
+            burst_held += (o.fail_phase.is_none()) as u64;
+            burst_items += o.burst_items;
+            burst_flows += o.burst_flows as u64;
+        }
+        if o.ice_connected_after_us > 0 {
+            srd.push(o.srd_answer_us);
+            icec.push(o.ice_connected_after_us);
+        }
+    }
+    srd.sort();
+    icec.sort();
+    let q = |v: &Vec<u64>, num: usize, den: usize| v.get((v.len().saturating_sub(1)) * num / den).copied().unwrap_or(0);
     rep.set("evaluations", n as u64 + reruns);
     rep.set("lattice_points", n as u64);
+    rep.set("lattice_regions", json!(lat.regions.iter().map(|(k, v)| json!({"region": k, "points_before_dedup": v})).collect::<Vec<_>>()));
+    rep.set("lattice_build_s", lattice_s);
+    rep.set("value_pairs_covered", lat.pairs_covered);
+    rep.set("points_by_dimension_value_total_held", json!(by_value.iter().map(|(k, v)| (k.clone(), json!([v.0, v.1]))).collect::<BTreeMap<_, _>>()));
+    rep.set("first_round_product_points", points.iter().filter(|p| p.round1()).count() as u64);
+    rep.set("concurrent_traffic_points", burst_points);
+    rep.set("concurrent_traffic_points_passed_first_run", burst_held);
+    rep.set("concurrent_flows_run", burst_flows);
+    rep.set("concurrent_items_verified", burst_items);
+    rep.set("concurrent_burst_sizes", json!({"data_channel_messages_per_flow": burst_sizes().0, "data_channel_message_bytes": DC_ITEM_LEN, "rtp_packets_per_flow_before_tail": burst_sizes().1, "rtp_payload_bytes": RTP_ITEM_LEN}));
+    rep.set("offerer_set_remote_answer_us_min_med_max", json!([q(&srd, 0, 1), q(&srd, 1, 2), q(&srd, 1, 1)]));
+    rep.set("offerer_ice_connected_after_set_remote_start_us_min_med_max", json!([q(&icec, 0, 1), q(&icec, 1, 2), q(&icec, 1, 1)]));
     rep.set("confirmation_reruns", reruns);
     rep.set("points_held", held);
     rep.set("points_failing_confirmed", confirmed.len() as u64);
@@ -1228,23 +1635,25 @@ fn main() {
     rep.set("flaky", Value::Array(flaky.clone()));
     rep.set("transfers_verified", transfers);
     rep.set("distinct_nontrivial", shapes.len() as u64);
-    rep.set("rule", "cases = every point of the stated configuration lattice (full product of the per-mode dimension value sets minus the listed exclusions), each run once on two real PeerConnections over 127.0.0.1 (+3 solo re-runs of every failing point). A case is non-trivial if signalling completed and at least one transfer was judged (or it failed); two cases are distinct if their (mode, outcome phase, negotiated session shape: BUNDLE/ports/per-section proto, mid, rtcp-mux, a=rtcp, setup, crypto, ice attrs, candidate transports, selected pair) differ. distinct_nontrivial counts those distinct classes.");
+    rep.set("rule", "cases = every point of the stated configuration x traffic lattice (thorough: the full product of the per-mode dimension value sets minus the listed exclusions; quick: the complete first-round product + a strength-2 covering array over all values of all dimensions + the concurrent-traffic region, see lattice_regions), each run once on two real PeerConnections over the loopback address of the point (+3 solo re-runs of every failing point). A case is non-trivial if signalling completed and at least one transfer was judged (or it failed); two cases are distinct if their (mode, outcome phase, negotiated session shape: BUNDLE/ports/per-section proto, mid, rtcp-mux, a=rtcp, setup, crypto, ice attrs, candidate transports, selected pair, shape of the second exchange) differ. distinct_nontrivial counts those distinct classes.");
     rep.set("exhaustive", !filtered);
     rep.set("by_mode_total_held", json!(by_mode.iter().map(|(k, v)| (k.to_string(), json!([v.0, v.1]))).collect::<BTreeMap<_, _>>()));
+    let quick = cli.tier == Tier::Quick;
     rep.set("dimension_values", json!({
-        "mode": MODES, "media_webrtc": if cli.tier == Tier::Quick { json!(["dc", "dc+audio+video"]) } else { json!(MEDIA) },
-        "media_direct": if cli.tier == Tier::Quick { json!(["audio", "audio+video", "audio+video/ans-rev"]) } else { json!([MEDIA[1], MEDIA[2], MEDIA[3], MEDIA[5]]) },
-        "bundle": if cli.tier == Tier::Quick { json!(["Balanced", "MaxBundle"]) } else { json!(BUNDLES) },
-        "mux": MUXES,
-        "ice_webrtc": if cli.tier == Tier::Quick { json!(["full", "udpmux-ans"]) } else { json!(ICE_WEBRTC) },
-        "ice_direct": if cli.tier == Tier::Quick { json!(["none"]) } else { json!(ICE_DIRECT) },
-        "latch_direct": if cli.tier == Tier::Quick { json!(["off", "p3"]) } else { json!(LATCHES) },
+        "mode": MODES, "media_webrtc": MEDIA, "media_direct": [MEDIA[1], MEDIA[2], MEDIA[3], MEDIA[5]],
+        "bundle": BUNDLES, "rtcp_mux_policy(both ends | offerer/answerer)": MUXES,
+        "ice_webrtc": ICE_WEBRTC, "ice_direct": ICE_DIRECT, "latch_direct": LATCHES,
         "compat": COMPATS, "offerer": OFFERERS,
+        "cand_webrtc(candidates inside the SDP | stripped from the SDP and trickled through add_ice_candidate)": CANDS,
+        "ip(127.0.0.1 | ::1)": IPS,
+        "dcs(no channel | one in-band | two in-band | negotiated id 0 on both ends | created after media connected, second offer/answer)": DCS,
+        "traffic(one item per flow one after another | numbered bursts on all flows at once)": TRAFFICS,
+        "tier": if quick { "quick: all values occur, all value pairs occur (value_pairs_covered), first-round product complete" } else { "thorough: full product" },
         "extra_region_thorough": "WebRtc x {dc, dc+audio+video} x {relay policy on offerer, on answerer} x offerer {A,B} through an in-process TURN server",
     }));
     rep.set("exclusions", Value::Array(exclusions()));
     rep.set("shape_classes", json!(shapes.iter().map(|(k, v)| json!({"class": k, "points": v})).collect::<Vec<_>>()));
-    rep.set("timeouts_ms", json!({"signal_step": t.signal.as_millis() as u64, "connect": t.connect.as_millis() as u64, "datachannel_step": t.dc.as_millis() as u64, "rtp_stream": t.rtp.as_millis() as u64}));
+    rep.set("timeouts_ms", json!({"signal_step": t.signal.as_millis() as u64, "connect": t.connect.as_millis() as u64, "datachannel_step": t.dc.as_millis() as u64, "rtp_stream": t.rtp.as_millis() as u64, "concurrent_flow": t.burst.as_millis() as u64}));
     rep.set("parallel_pool", pool as u64);
     rep.set("confirmation_pool", confirm_pool as u64);
     rep.set("parallel_pass_s", par_s);
